@@ -31,7 +31,7 @@ func checkC05(p *Prog, r *Report) {
 	r.Rule("R1", "every dereference / field access through a pointer that may be nil on the wire — or that is the result of a getter whose field is nil by construction (its constructor is called with nil) — in the synchronous inbound call tree, is guarded on the same access path")
 	r.Rule("R2", "every constant index into a wire-derived list is guarded by a length test")
 	r.Rule("R3", "no explicit panic and no unchecked type assertion on wire data is reachable in the inbound call tree (exemptions only where an exhaustive table rule proves the case impossible)")
-	r.Rule("R4", "reflect preconditions: every fct tag is non-empty (so CmdData.Function / FilterData.Function are non-nil after a successful accessor); the selector match calls Elem() on an item field only if it is a non-nil pointer; every item field is of a nilable kind")
+	r.Rule("R4", "reflect preconditions: every fct tag is non-empty and CmdType.Data succeeds only for a tagged field (so CmdData.Function / FilterData.Function are non-nil after a successful accessor); every registered payload type is the type of the command element of its function (so the unchecked assertion in the store cannot fail); the selector match calls Elem() on an item field only if it is a non-nil pointer; every item field is of a nilable kind")
 	r.Rule("R5", "no wedge: in the inbound call tree every lock is released on every path, the lock order is acyclic and no blocking primitive (channel receive, select without default, WaitGroup/Cond wait) is used")
 	r.Rule("R6", "the decode error is tested before the datagram is used")
 
@@ -107,6 +107,27 @@ func checkC05(p *Prog, r *Report) {
 		r.Undecided("R4", "anchor:model.CmdType.Data", "", "method not found")
 		tagsOK = false
 	}
+
+	// the unchecked assertions newData.(*T) in the store rely on: what arrives for function F has the type the
+	// factory registered for F — the decoder fills the CmdType field tagged fct:F, so that field's type must be *T
+	nReg, badReg := 0, 0
+	seenReg := map[string]bool{}
+	for _, reg := range t.Regs {
+		if seenReg[reg.Fct] {
+			continue
+		}
+		seenReg[reg.Fct] = true
+		nReg++
+		fs := t.CmdByFct[reg.Fct]
+		if len(fs) != 1 || !types.Identical(fs[0].Var.Type(), types.NewPointer(reg.T)) {
+			badReg++
+			r.Fail("R4", "fct:"+reg.Fct+"|payload-type", p.Pos(reg.Pos), fmt.Sprintf("function %s is registered with payload %s but its command element has a different type: the unchecked assertion in the store panics on the first valid message for it", reg.Fct, shortType(reg.T)))
+		}
+	}
+	if badReg == 0 {
+		r.Pass("R4", "registrations|payload-types", "", fmt.Sprintf("%d registered functions: the payload type equals the type of the command element tagged with the function", nReg))
+	}
+	r.Floor("R4", "registered functions", nReg, 120)
 
 	w := RunWireNil(p, root, tagsOK)
 	r.Stat("functions in the synchronous inbound call tree", len(w.reach))
